@@ -88,7 +88,11 @@ def model_undo(m, work, tid):
     if target is None or target.status != ' ':
         raise UndoRefused('no such undoable transaction')
     recs = []
-    for r in target.written():
+    written = list(target.written())
+    # a transaction that undid several transactions can hold two records of one object: the last one is the
+    # object's revision in that transaction, and that is what gets undone
+    written = [r for k_, r in enumerate(written) if all(r2.oid != r.oid for r2 in written[k_ + 1:])]
+    for r in written:
         o = r.oid
         xs = r.data                                 # state the undone transaction wrote
         pre = m.state_before(o, tid)                # state immediately before it
@@ -251,8 +255,9 @@ def h_undo_tid(tid: bytes, which: str, reopen: bool) -> None:
     reached()
 
 
-def h_multi_undo(i: int, j: int, which: str) -> None:
-    """Two transactions undone in one transaction, in either order (selectors over the history)."""
+def h_multi_undo(i: int, j: int, which: str, again: bool = False) -> None:
+    """Two transactions undone in one transaction, in either order (selectors over the history); again: the undo
+    transaction is then undone itself, which restores the state before it."""
     with untraced():
         from ZODB.POSException import UndoError
         env = T.Env()
@@ -273,7 +278,25 @@ def h_multi_undo(i: int, j: int, which: str) -> None:
         except UndoError as e:
             got, err = None, e
         note('pair', '%d,%d:%s' % (a, b, 'ok' if got else 'refused'))
-        _check_outcome(s, h, h.m, ids, got, err)
+        m2 = _check_outcome(s, h, h.m, ids, got, err)
+        if again and got:
+            try:
+                got2 = _apply(s, h, [base64.encodebytes(got).rstrip()])
+                err2 = None
+            except UndoError as e:
+                got2, err2 = None, e
+            # (a transaction that undid two transactions may hold two records of one object; how many records its own
+            # undo writes is not specified - the states are)
+            check(err2 is None, 'undo of the undo transaction refused although nothing was committed after it', repr(err2)[:200])
+            from ZODB.utils import load_current
+            for o in sorted(set(r.oid for r in m2.txn(got).written())):
+                want = h.m.revs(o)[-1][1].data if h.m.revs(o) else None
+                try:
+                    have = load_current(s, o)[0]
+                except KeyError:
+                    have = None
+                check((have == want or _same(('s', _st(have)), ('s', _st(want)))) if (have is not None and want is not None) else have is want,
+                      'undo of the undo transaction did not restore the state before it', o, have, want)
     reached()
 
 
@@ -366,7 +389,7 @@ HARNESSES = [
             quick=dict(timeout=100, shards=shards(two=[False, True], storage=['file', 'demo'])),
             thorough=dict(timeout=300, shards=shards(two=[False, True], storage=['file', 'demo']))),
     Harness('multi_undo', h_multi_undo,
-            decides='two transactions undone in one transaction, in any order: result = sequential application, or UndoError and no change',
+            decides='two transactions undone in one transaction, in any order: result = sequential application, or UndoError and no change; the undo transaction can be undone in turn',
             symbolic='two selectors over the transactions of the history', bounds='scenarios A, B (6 transactions: all 30 ordered pairs) and D (one resolvable object changed 4 times: 12 ordered pairs)',
             oracle='model_undo applied sequentially', code=['FileStorage.undo (tindex path)', '_transactionalUndoRecord'],
             quick=dict(timeout=120, shards=shards(which=['A', 'B', 'D'])),
